@@ -49,6 +49,8 @@ def run(ctx):
         fl = m.attrs.get('_fluxes') if isinstance(m, Obj) else None
         ctx.expect(isinstance(fl, Arr) and fl.dims[:1] == ('m',), 'PERM-8', 'Models (reader v%d) fluxes share the model axis with names' % version, loc(fi), 'fluxes axes %s' % (fl.dims if isinstance(fl, Arr) else None,),
                    'fluxes axes %s' % (fl.dims if isinstance(fl, Arr) else fl,), 'model-axis')
+    from . import c01
+    c01.check_filter_dicts(ctx)
     # hop 3: FitInfo.model_name and the single permutation
     c04.check_fit_rows(ctx)
     c04.check_sort(ctx)
